@@ -82,7 +82,7 @@ def harnesses(tier, seed):
     for s in gr:
         if "stype" in s.tags or "fieldonly" in s.tags:
             continue
-        if s.name in ("L_selfref", "L_self_toml", "L_self_msgpack", "L_self_orjson"):
+        if "selfref" in s.name or "_self_" in s.name:
             continue  # typing.Self is not supported by the schema generator at all (raises TypeError): outside C06, see C20
         for variant in variants:
             has_dc = any(k in s.texpr for k in ("Mix", "Plain", "Inh", "Gen", "Al", "Two", "NT", "TDict", "OptD", "Lvl", "Nt", "OuterG"))
@@ -94,8 +94,8 @@ def harnesses(tier, seed):
             try:
                 probe(s, variant)
                 hs.append(gen.value_harness("C06", "c06", s, variant, "Bounds(maxlen=2)"))
-            except NotImplementedError as e:
-                pass
+            except (NotImplementedError, AssertionError) as e:
+                pass  # the schema generator cannot build this type at all: outside C06 (totality is C20's subject)
             except Exception as e:
                 skipped.append((s.name, variant, repr(e)[:300]))
     return hs, skipped
